@@ -21,7 +21,7 @@
 EXTENDS Trace_Balloon
 
 VARIABLES nst,      \* node -> [up, len, idx, pend, pidx, restored, restarted, unknown]
-          hmaps,    \* hyper map as of each version (index v+1)
+          hmaps,    \* one entry per inserted bulk: [lo, hi, m, t, r] = versions lo..hi-1, hyper map, trie, root term after it
           dumps,    \* applied raft index -> digest of the whole store (first node seen)
           nacked,   \* number of versions acknowledged to the (sequential) client
           lost,     \* digests of adds whose acknowledgement failed (may or may not be committed)
@@ -32,7 +32,7 @@ cvars == <<l, log, hmap, hroot, hyps, reopened, viol, nst, hmaps, dumps, nacked,
 CView == l
 
 N0 == [up |-> FALSE, len |-> 0, idx |-> 0, pend |-> 0, pidx |-> 0, restored |-> FALSE, restarted |-> FALSE, unknown |-> FALSE,
-       maybe |-> FALSE, fork |-> FALSE]   \* maybe: killed between compute and persist - the atomic write either landed or not
+       maybe |-> FALSE, fork |-> FALSE, crashed |-> FALSE]   \* maybe: killed between compute and persist - the atomic write either landed or not
 
 (* A node killed inside db.Mutate holds either the state before the write or the state after it
    (Cluster.tla: Crash is enabled in pc = "computed"; the write batch is atomic).  The first
@@ -55,6 +55,7 @@ NTags(props, n, what) ==
   { Tag(p, what \o " [node " \o ToString(n) \o "]") : p \in props }
   \cup (IF nst[n].restored THEN {Tag("C09", "after state transfer: " \o what \o " [node " \o ToString(n) \o "]")} ELSE {})
   \cup (IF nst[n].restarted THEN {Tag("C08", "after restart: " \o what \o " [node " \o ToString(n) \o "]")} ELSE {})
+  \cup (IF nst[n].crashed THEN {Tag("C07", "after crash recovery: " \o what \o " [node " \o ToString(n) \o "]")} ELSE {})
 
 (* mention of versions v0 .. v0+Len(ds)-1 with digests ds: extend the committed log or agree with it *)
 Agrees(v0, ds) == \A i \in 1..Len(ds) : (v0 + i - 1 < Len(log)) => log[v0 + i] = ds[i]
@@ -62,14 +63,17 @@ Extends(v0, ds) == v0 <= Len(log) /\ v0 + Len(ds) > Len(log)
 NewPart(v0, ds) == SubSeq(ds, Len(log) - v0 + 1, Len(ds))
 
 (* the hyper tree is kept in its incremental form (MC_Hyper: it is the canonical tree); in this
-   module the variable hroot holds that trie, hyps its root term per version and hmaps the pair
-   (map, trie) per version.  Expensive values are operator arguments, which TLC evaluates once
+   module the variable hroot holds that trie and hmaps one entry (map, trie, root term) per
+   inserted bulk; HEnt(hs, c) is the entry describing the hyper tree of a log of c events.  Expensive values are operator arguments, which TLC evaluates once
    (an action-level LET is re-evaluated at every reference). *)
+HEnt(hs, c) == hs[CHOOSE i \in 1..Len(hs) : hs[i].lo < c /\ c <= hs[i].hi]
+
 MentionNew3(np, hm2, tr2, hr2) ==
   /\ log' = log \o np
   /\ hmap' = hm2 /\ hroot' = tr2
-  /\ hyps' = hyps \o [i \in 1..Len(np) |-> hr2]
-  /\ hmaps' = hmaps \o [i \in 1..Len(np) |-> [m |-> hm2, t |-> tr2]]
+  /\ hyps' = hyps   \* unused here: TLC normalises every value of every state, so the history of
+                    \* hyper trees is kept per bulk (hmaps), not per version
+  /\ hmaps' = Append(hmaps, [lo |-> Len(log), hi |-> Len(log) + Len(np), m |-> hm2, t |-> tr2, r |-> hr2])
 MentionNew2(np, hm2, tr2) == MentionNew3(np, hm2, tr2, TRoot(tr2))
 MentionNew(np) == MentionNew2(np, ApplyBulkMap(hmap, np, Len(log)), TApplyBulk(hroot, np, Len(log)))
 
@@ -150,7 +154,7 @@ StepAck ==
                     \cup (IF sn.e # Ev.bulk[i] THEN NTags({"C05"}, n, "snapshot carries another event digest") ELSE {})
                     \cup (IF v < Len(log') /\ Term(sn.hist) # Root(log', v)
                           THEN NTags({"C04", "C06"}, n, "acknowledged history digest is not the canonical root") ELSE {})
-                    \cup (IF v < Len(hyps') /\ Term(sn.hyper) # hyps'[v + 1]
+                    \cup (IF v < Len(log') /\ Term(sn.hyper) # HEnt(hmaps', v + 1).r
                           THEN NTags({"C04", "C06"}, n, "acknowledged hyper digest is not the canonical root") ELSE {})
                   : i \in 1..Min(Len(Ev.snaps), m) }
                \cup (IF ~nst[n].unknown /\ nst[n].len < v0 + m
@@ -184,7 +188,7 @@ StepAckBig ==
                \cup UNION { LET sn == Ev.snaps[j] v == sn.v IN
                     (IF v < Len(log') /\ Term(sn.hist) # Root(log', v)
                           THEN NTags({"C04", "C06"}, n, "acknowledged history digest is not the canonical root") ELSE {})
-                    \cup (IF v < Len(hyps') /\ Term(sn.hyper) # hyps'[v + 1]
+                    \cup (IF v < Len(log') /\ Term(sn.hyper) # HEnt(hmaps', v + 1).r
                           THEN NTags({"C04", "C06"}, n, "acknowledged hyper digest is not the canonical root") ELSE {})
                   : j \in 1..Len(Ev.snaps) }
                \cup (IF ~nst[n].unknown /\ nst[n].len < v0 + m
@@ -199,7 +203,7 @@ StepBoot ==
 
 StepKill ==
   /\ Ev.a \in {"kill", "died"}
-  /\ nst' = [nst EXCEPT ![Ev.n].up = FALSE, ![Ev.n].maybe = (nst[Ev.n].pend > 0)]
+  /\ nst' = [nst EXCEPT ![Ev.n].up = FALSE, ![Ev.n].maybe = (nst[Ev.n].pend > 0), ![Ev.n].crashed = TRUE]
   /\ viol' = viol \cup (IF Ev.a = "died" THEN {Tag("C07", "node process died on its own [node " \o ToString(Ev.n) \o "]"),
                                                Tag("C11", "node process died on its own [node " \o ToString(Ev.n) \o "]")} ELSE {})
   /\ UNCHANGED <<log, hmap, hroot, hyps, hmaps, reopened, dumps, nacked, lost, blist>>
@@ -283,6 +287,7 @@ Retag(tags, n) ==
   UNION { LET t == tags IN {} : x \in {} } \cup tags
   \cup (IF nst[n].restored THEN { "C09|" \o t : t \in tags } ELSE {})
   \cup (IF nst[n].restarted THEN { "C08|" \o t : t \in tags } ELSE {})
+  \cup (IF nst[n].crashed THEN { "C07|" \o t : t \in tags } ELSE {})
   \cup (IF nst[n].fork THEN { "C16|" \o t : t \in tags } ELSE { "C06|" \o t : t \in tags })
   \cup (IF nst[n].pend > 0 \/ InW(Ev) > 0 THEN { "C10|" \o t : t \in tags } ELSE {})
 
@@ -293,11 +298,11 @@ StepNMember ==
      viol' = viol \cup
        (IF Ev.err
         THEN (IF "panic" \in DOMAIN Ev THEN NTags({"C10"}, n, "membership query failed internally (panic)") ELSE
-              IF nst[n].pend = 0 /\ InW(Ev) = 0 /\ ~nst[n].unknown /\ c1 <= Len(hmaps) /\ Ev.d \in DOMAIN (IF c1 > 0 THEN hmaps[c1].m ELSE <<>>) /\ (Ev.latest \/ hmaps[c1].m[Ev.d] <= Ev.q)
+              IF nst[n].pend = 0 /\ InW(Ev) = 0 /\ ~nst[n].unknown /\ c1 <= Len(log) /\ Ev.d \in DOMAIN (IF c1 > 0 THEN HEnt(hmaps, c1).m ELSE <<>>) /\ (Ev.latest \/ HEnt(hmaps, c1).m[Ev.d] <= Ev.q)
               THEN NTags({"C01", "C06"}, n, "query for an inserted event failed") ELSE {})
         ELSE IF c1 < 1 \/ c1 > Len(log) \/ ~ViewOKW(n, c1, InW(Ev))
              THEN NTags({"C05", "C10"}, n, "current version of the reply is not a state of this node")
-             ELSE Retag(MemberChecksWith(Ev, SubSeq(log, 1, c1), hmaps[c1].m, hyps[c1], TSearch(hmaps[c1].t, Ev.d)), n))
+             ELSE Retag(MemberChecksWith(Ev, SubSeq(log, 1, c1), HEnt(hmaps, c1).m, HEnt(hmaps, c1).r, TSearch(HEnt(hmaps, c1).t, Ev.d)), n))
   /\ UNCHANGED <<log, hmap, hroot, hyps, hmaps, reopened, dumps, nacked, lost, nst, blist>>
 
 StepNIncr ==
@@ -375,7 +380,7 @@ StepBAdd ==
         ELSE (IF Ev.v # c1 THEN {Tag("C16", "next event after restore does not get version v+1")} ELSE {})
              \cup (IF c1 <= Len(log) /\ Term(Ev.hist) # Root(Append(SubSeq(log, 1, c1), Ev.d), c1)
                    THEN {Tag("C16", "history digest after restore is not the canonical root")} ELSE {})
-             \cup (IF c1 >= 1 /\ c1 <= Len(log) /\ Term(Ev.hyper) # TRoot(TApplyBulk(hmaps[c1].t, <<Ev.d>>, c1))
+             \cup (IF c1 >= 1 /\ c1 <= Len(log) /\ Term(Ev.hyper) # TRoot(TApplyBulk(HEnt(hmaps, c1).t, <<Ev.d>>, c1))
                    THEN {Tag("C16", "hyper digest after restore is not the canonical root")} ELSE {}))
   /\ UNCHANGED <<log, hmap, hroot, hyps, hmaps, reopened, dumps, nacked, lost, nst, blist>>
 
